@@ -1330,7 +1330,11 @@ def _num_of(v):
 for _op in ('lt', 'le', 'gt', 'ge'):
     def _mk_ord(op):
         def f(it, a, c):
-            x, y = _num_of(a[0]), _num_of(a[1])
+            p, q = deref(a[0]), deref(a[1])
+            if isinstance(p, Str) and isinstance(q, Str) and p.s is not None and q.s is not None:      # byte strings / texts: lexicographic on the bytes
+                x, y = raw_bytes(p), raw_bytes(q)
+            else:
+                x, y = _num_of(p), _num_of(q)
             return {'lt': x < y, 'le': x <= y, 'gt': x > y, 'ge': x >= y}[op]
         return f
     DEF_MODELS['std::cmp::PartialOrd::' + _op] = _mk_ord(_op)
@@ -1393,3 +1397,13 @@ def _bytes_cmp(it, a, c):
     return Enum('std::cmp::Ordering', 'Less' if p < q else ('Equal' if p == q else 'Greater'), [])
 MODELS['<[u8] as std::cmp::Ord>::cmp'] = _bytes_cmp
 MODELS['<[T] as std::cmp::Ord>::cmp'] = _bytes_cmp
+
+
+@model('core::slice::<impl [T]>::swap', 'std::slice::<impl [T]>::swap', 'std::vec::Vec::swap')
+def _slice_swap(it, a, c):
+    l = seq(a[0]); i, j = a[1], a[2]
+    if is_sym(i): i = it.concretize_index(i, len(l))
+    if is_sym(j): j = it.concretize_index(j, len(l))
+    if i >= len(l) or j >= len(l): raise PanicPath('index out of bounds: swap(%d, %d) on len %d' % (i, j, len(l)))
+    l[i], l[j] = l[j], l[i]
+    return UNIT()
